@@ -4,7 +4,7 @@ import FGVerif.Model.C02
   driver operations for C02
 
   (check <chain> <str> <rdkit canon | (raised K)> <impl canon | (raised K)>)
-    → (ok <model canon> <spec_model> <spec_impl> <rdkit agrees with smilesDenote 0|1> <Plain> <WF>)
+    → (ok <model canon> <spec_model> <spec_impl> <rdkit agrees with smilesDenote 0|1> <Plain> <WFRef>)
 -/
 namespace C02
 open SExp C01
@@ -28,7 +28,7 @@ def handle : List SExp → Option SExp
       if renderStr c != s then none
       let d := smilesDenote c
       let want := canonGraph d
-      let flags := [ofBool (rd == rdkitView d), ofBool (Plain c), ofBool (WF false c)]
+      let flags := [ofBool (rd == rdkitView d), ofBool (Plain c), ofBool (WFRef false c)]
       match parse ⟨false, false⟩ s 0 with
       | .ok g => pure (.list ([.atom "ok", canonGraph g, ofBool (canonGraph g == want), ofBool (impl == want)] ++ flags))
       | .error e => pure (.list ([.atom "ok", ofErr e, ofBool false, ofBool (impl == want)] ++ flags))
